@@ -13,6 +13,8 @@ def run(ctx):
     for cls in (directed.F25, directed.F26, directed.F24):
         fails += CC.run_scenarios(ctx, "C04", 1, scenario_cls=cls, seeds=[0])
     fails += CC.run_scenarios(ctx, "C04", n, steps=60)
+    # a busy broker (many inbound messages, small Receive Maximum): acknowledgements queue up behind throttled publishes
+    fails += CC.run_scenarios(ctx, "C04", 150 if ctx.tier == "quick" else 4000, steps=70, profile="inbound")
     ctx.cov["rule"] = ("generated scenarios through the real mqtt_client on the scripted stream: API calls (publish QoS 0/1/2 with properties, subscribe, unsubscribe, receive, per-operation "
                        "cancellation signals), a broker (acks with reason codes/properties, inbound QoS 0/1/2 messages, held-back replies), byte chunking, connection loss with partial delivery, the broker's retransmissions after a reconnect (PUBLISH with DUP, PUBREL), "
                        "reconnects with changing Receive Maximum / Server Keep Alive / Session Present, virtual time, then a fault-free suffix and cancel() or async_disconnect; "
